@@ -25,7 +25,7 @@ func verifyUnit(p *Prog, fi *FuncInfo) (res *UnitResult) {
 	x := newExec(p, fi)
 	x.extUsed = map[string]int{}
 	x.zeroLinks = map[string]func(r *Term) *Term{}
-	x.unfolded = map[string]bool{}
+	x.unfolded = map[*Term]bool{}
 	res = &UnitResult{Func: fi.Name(), File: p.relPos(fi.Decl)}
 	if fi.Contract != nil {
 		res.Serves = fi.Contract.Serves
